@@ -32,7 +32,7 @@ EXPLANATION = ("the functional postconditions of search / group / the entity met
 
 def obligations(ctx):
     from props._shared import typing_state_census
-    return list(ctx.verify(FUNCTIONS) + lemmas(ctx)) + [typing_state_census(ctx, 'C02')]
+    return list(ctx.verify(FUNCTIONS) + ctx.part(lemmas)) + ctx.part(lambda c_: [typing_state_census(c_, 'C02')], 'typing-state census')
 
 
 def lemmas(ctx):
